@@ -11,7 +11,7 @@ PROP = "C01"
 
 def main(tier, seed):
     rep, cx, n = addr_common.run(
-        PROP, tier, seed, sections=1 | 2 | 4 | 8 | 16, variants=[("asan", {}, False)],
+        PROP, tier, seed, sections=1 | 2 | 4 | 8 | 16 | 32, variants=[("asan", {}, False)],
         rule="", assumptions=["validity of each half is defined by the library's own public per-part validators (their "
                               "correctness is C02-C05's job)",
                               "bracketed domains shorter than 9 bytes are not judged (length pre-check vs untagged IPv6)"])
@@ -21,5 +21,5 @@ def main(tier, seed):
                       "cross product of a local-part pool and a domain pool (host names of every TLD class, IDN, literals, junk), "
                       "0-3 '@' at every position, local-part length 60-69 in 4 shapes, repository corpus + mutations, random "
                       "bytes; every address in 4 modes x tld off/on, high- and low-level API, plus 12 'rfc changed after setup' "
-                      "probes per address; distinct = distinct addresses",
+                      "probes and 16 'setup m1 then setup m2' probes per address; distinct = distinct addresses",
                       {"builds": cx.builds_info()})
